@@ -316,7 +316,10 @@ def r2(ctx):
     elif comps:
         ctx.ob(fc.qual, "read-positions-filter:any", None, fc.loc(rl[0]), "merge loop of the read loop not found")
     merges = [c for c in ctx.prog.calls_in(fc.node) if u(c.func) == "component_finder.merge"]
-    ctx.require(len(merges) == 2, "expected two merge sites (reads, master block)")
+    ctx.require(len(merges) >= 1, "no component_finder.merge call in find_components")
+    if not any("master_block" in u(c) or mb_p in u(c) for c in merges):
+        uses_mb = any(isinstance(x, ast.Name) and x.id == mb_p and isinstance(x.ctx, ast.Load) for x in walk_function(fc.node))
+        ctx.ob(fc.qual, "master-block-merged-when-given", False if uses_mb else None, fc.loc(), "the master block is not joined through the union-find (component_finder.merge): the merged set is no longer named by the minimum of its members" if uses_mb else "the master block is not used in find_components")
     for c in merges:
         if c is anchor_merge:
             continue  # judged by _anchor_form
